@@ -95,8 +95,21 @@ def r1_writers(repo, report):
               expected="per name: open(template1 -> name, template2 -> name); untrimmed: (untrimmed_output or template1/unknown, untrimmed_paired_output or template2/unknown), None iff discarding", loc=repo.loc(fn), cases=len(rows), why=str(bad[0])[:240] if bad else "")
     # --- combinatorial ---
     cls = repo.cls("CombinatorialDemultiplexer")
-    c, fn = repo.need_method("CombinatorialDemultiplexer", "_open_writers")
-    ps = params(fn)
+    c, fn0 = repo.need_method("CombinatorialDemultiplexer", "_open_writers")
+    ps = params(fn0)
+    from ..localroles import rename
+
+    # locals by role: the dictionary returned; the list added to the product in the main loop
+    m_ = {}
+    for n in ast.walk(fn0):
+        if isinstance(n, ast.Return) and isinstance(n.value, ast.Name):
+            m_[n.value.id] = "writers"
+    for l in ast.walk(fn0):
+        if isinstance(l, ast.For) and "itertools.product" in src(l.iter):
+            xs = {n.id for n in ast.walk(l.iter) if isinstance(n, ast.Name) and n.id not in ps and n.id not in ("itertools", "list")}
+            if len(xs) == 1:
+                m_[xs.pop()] = "extra"
+    fn = rename(fn0, m_)
     text = src(fn)
     loops = [n for n in ast.walk(fn) if isinstance(n, ast.For)]
     main = [l for l in loops if "itertools.product" in src(l.iter)]
@@ -125,7 +138,34 @@ def r1_writers(repo, report):
         ok = ok and not bad and len(rows) == 4
     # extras: unless discarding (None, None), (None, name2)..., (name1, None)...
     ex = [n for n in ast.walk(fn) if isinstance(n, ast.If) and src(n.test) == ps[4]]
-    ok_ex = len(ex) == 1 and src(ex[0].body[0]).replace(" ", "") == "extra=[]" and "[(None, None)]" in src(ex[0]) and f"[(None, name2) for name2 in {ps[1]}]" in src(ex[0]) and f"[(name1, None) for name1 in {ps[0]}]" in src(ex[0])
+    def extra_items(stmts):
+        """kinds of pairs added to the extra list by these statements"""
+        kinds = []
+        for st in stmts:
+            if not (isinstance(st, (ast.Assign, ast.AugAssign, ast.AnnAssign)) and st.value is not None and chain(st.targets[0] if isinstance(st, ast.Assign) else st.target) == "extra"):
+                kinds.append("other:" + src(st)[:40])
+                continue
+            v = st.value
+            if isinstance(st, ast.AugAssign) and not isinstance(st.op, ast.Add):
+                kinds.append("other:" + src(st)[:40])
+                continue
+            if isinstance(st, ast.AugAssign) != bool(kinds):
+                kinds.append("overwrites:" + src(st)[:40])  # the first statement must assign, every later one must add
+                continue
+            if isinstance(v, ast.List) and not v.elts:
+                kinds.append("empty")
+            elif isinstance(v, ast.List) and [src(e) for e in v.elts] == ["(None, None)"]:
+                kinds.append("(None, None)")
+            elif isinstance(v, ast.ListComp) and len(v.generators) == 1 and not v.generators[0].ifs and isinstance(v.generators[0].target, ast.Name) and isinstance(v.elt, ast.Tuple) and len(v.elt.elts) == 2:
+                t = v.generators[0].target.id
+                shape = tuple("x" if (isinstance(e, ast.Name) and e.id == t) else src(e) for e in v.elt.elts)
+                kinds.append(f"{shape} over {src(v.generators[0].iter)}")
+            else:
+                kinds.append("other:" + src(v)[:40])
+        return kinds
+
+    ok_ex = len(ex) == 1 and extra_items(ex[0].body) == ["empty"] and sorted(extra_items(ex[0].orelse)) == sorted(["(None, None)", f"('None', 'x') over {ps[1]}", f"('x', 'None') over {ps[0]}"])
+    facts["extra"] = {"discarding": extra_items(ex[0].body), "otherwise": extra_items(ex[0].orelse)} if len(ex) == 1 else None
     report.ob("C15.R1", "CombinatorialDemultiplexer._open_writers", ok and ok_ex, facts=facts, expected="one writer per (name1, name2) of the product plus, unless discarding, (None, None), (None, name2), (name1, None); None -> 'unknown'; {name1}/{name2} replaced in both templates", loc=repo.loc(fn))
 
 
@@ -160,8 +200,15 @@ def r2_routing(repo, report):
     st = [src(n) for n in ast.walk(init) if isinstance(n, ast.Assign) and chain(n.targets[0]) == "self.front_adapter.name"]
     report.ob("C15.R2", "LinkedAdapter names its front part", st == ["self.front_adapter.name = self.name"], facts={"statement": st}, expected="self.front_adapter.name = self.name", loc=repo.loc(init))
     fn = repo.func("cli", "make_pipeline_from_args")
-    d = {chain(n.targets[0]) if not isinstance(n, ast.AnnAssign) else chain(n.target): src(n.value) for n in ast.walk(fn) if isinstance(n, (ast.Assign, ast.AnnAssign)) and (chain(n.targets[0]) if isinstance(n, ast.Assign) else chain(n.target)) in ("adapter_names", "adapter_names2")}
-    ok = d.get("adapter_names") == "[a.name for a in adapters]" and d.get("adapter_names2") == "[a.name for a in adapters2]"
+    from ..localroles import _names_of
+
+    d = {}
+    for n in ast.walk(fn):
+        if isinstance(n, (ast.Assign, ast.AnnAssign)) and n.value is not None:
+            t = chain(n.targets[0]) if isinstance(n, ast.Assign) else chain(n.target)
+            if t in ("adapter_names", "adapter_names2"):
+                d[t] = "names of adapters" if _names_of("adapters")(n.value) else "names of adapters2" if _names_of("adapters2")(n.value) else src(n.value)
+    ok = d == {"adapter_names": "names of adapters", "adapter_names2": "names of adapters2"}
     report.ob("C15.R2", "adapter name lists", ok, facts=d, expected={"adapter_names": "[a.name for a in adapters]", "adapter_names2": "[a.name for a in adapters2]"}, loc=repo.loc(fn))
 
 
